@@ -122,7 +122,7 @@ func c05Run(c *fw.Ctx, s int, nNodes int, seq []c05Pkt, fault c05Fault) c05Resul
 	defer cl.Close()
 	nodes := []*kit.Node{}
 	for i := 1; i <= nNodes; i++ {
-		n, err := cl.AddNode(kit.NodeOpts{ID: uint64(i)})
+		n, err := cl.AddNode(kit.NodeOpts{ID: uint64(i), Auth: kit.TenantAuth()})
 		if err != nil {
 			c.Inconclusive("cannot start node: " + err.Error())
 			return res
@@ -148,7 +148,7 @@ func c05Run(c *fw.Ctx, s int, nNodes int, seq []c05Pkt, fault c05Fault) c05Resul
 		return res
 	}
 	defer pub.Close()
-	// a second client holds unreleased QoS 2 publishes with the SAME identifiers the first client is
+	// a second client, and a third one with the publisher's own client identifier in another mount point, hold unreleased QoS 2 publishes with the SAME identifiers the first client is
 	// going to use: identifiers are per session, so nothing the first client does may forward them
 	other, err := nodes[0].MustConnect(kit.ConnectOpts{ClientID: "other-publisher", KeepAlive: 600, Clean: true})
 	if err != nil {
@@ -165,6 +165,33 @@ func c05Run(c *fw.Ctx, s int, nNodes int, seq []c05Pkt, fault c05Fault) c05Resul
 			other.Send(kit.EncPublish("c05/t", []byte(tag), 2, false, false, p.ID))
 			if _, _, err := other.WaitFor(from, kit.DefaultWait, func(e kit.Event) bool { return e.Pkt.Type == kit.PUBREC && e.Pkt.ID == p.ID }); err != nil {
 				c.Inconclusive(fmt.Sprintf("second client: no PUBREC: %v", err))
+				return res
+			}
+		}
+	}
+	// a third client has the SAME client identifier as the publisher, in another mount point (with a watcher
+	// of its own there), and also holds unreleased QoS 2 publishes with the same packet identifiers
+	twinWatch, err := nodes[0].MustConnect(kit.ConnectOpts{ClientID: "twin-watch", KeepAlive: 600, Clean: true, User: "tX"})
+	if err != nil {
+		c.Inconclusive("connect: " + err.Error())
+		return res
+	}
+	defer twinWatch.Close()
+	twinWatch.Sub1("c05/#", 0)
+	twin, err := nodes[0].MustConnect(kit.ConnectOpts{ClientID: "publisher", KeepAlive: 600, Clean: true, User: "tX"})
+	if err != nil {
+		c.Inconclusive("connect: " + err.Error())
+		return res
+	}
+	defer twin.Close()
+	for _, p := range seq {
+		if p.Kind == "P2" || p.Kind == "P1" {
+			tag := fmt.Sprintf("twin-%d-%d", s, p.ID)
+			otherTags[tag] = true
+			from := twin.NumEvents()
+			twin.Send(kit.EncPublish("c05/t", []byte(tag), 2, false, false, p.ID))
+			if _, _, err := twin.WaitFor(from, kit.DefaultWait, func(e kit.Event) bool { return e.Pkt.Type == kit.PUBREC && e.Pkt.ID == p.ID }); err != nil {
+				c.Inconclusive(fmt.Sprintf("same-named client of another mount point: no PUBREC: %v", err))
 				return res
 			}
 		}
@@ -393,6 +420,11 @@ func c05Run(c *fw.Ctx, s int, nNodes int, seq []c05Pkt, fault c05Fault) c05Resul
 		c.Observe("tags_checked", 1)
 		if got[tag] != 0 {
 			c.Violation("forwarded-other-sessions-pending-publish", fmt.Sprintf("%s: %s, an unreleased QoS 2 publish of ANOTHER session with the same packet identifier, was offered to the log %d time(s)", desc, tag, got[tag]), wit(map[string]interface{}{"tag": tag}))
+		}
+	}
+	for _, e := range twin.Events() {
+		if e.Pkt.Type == kit.PUBCOMP {
+			c.Violation("stray-acknowledgement", fmt.Sprintf("%s: the same-named client of another mount point received %s for a publish it never released", desc, e.Pkt), wit(nil))
 		}
 	}
 	for _, e := range other.Events() {
@@ -650,6 +682,10 @@ func runC05(c *fw.Ctx) {
 			wg.Add(1)
 			go func(i int) { defer wg.Done(); c05Shutdown(c, i) }(i)
 		}
+		for i := 0; i < c.Pick(3, 12); i++ {
+			wg.Add(1)
+			go func(i int) { defer wg.Done(); c05Saturated(c, i) }(i)
+		}
 		wg.Wait()
 	}
 	if len(base) > 0 {
@@ -722,5 +758,89 @@ func c05Shutdown(c *fw.Ctx, i int) {
 				map[string]interface{}{"scenario": i, "qos": qos})
 			return
 		}
+	}
+}
+
+// c05Saturated: every publish worker of the node is busy (its log takes long to accept a write) when
+// the PUBREL of a QoS 2 handshake arrives. Whatever the broker does with that message, a PUBCOMP may
+// only be sent once the message has been accepted by the log.
+func c05Saturated(c *fw.Ctx, i int) {
+	fw.LogCase("C05 saturated %d", i)
+	cl := kit.NewCluster(kit.WorkDir("c05w"))
+	defer cl.Close()
+	n, err := cl.AddNode(kit.NodeOpts{ID: 1})
+	if err != nil {
+		c.Inconclusive("cannot start node: " + err.Error())
+		return
+	}
+	w, err := n.MustConnect(kit.ConnectOpts{ClientID: "w", KeepAlive: 600, Clean: true})
+	if err != nil {
+		c.Inconclusive("connect: " + err.Error())
+		return
+	}
+	defer w.Close()
+	w.Sub1("c05/#", 0)
+	filler, err := n.MustConnect(kit.ConnectOpts{ClientID: "filler", KeepAlive: 600, Clean: true})
+	if err != nil {
+		c.Inconclusive("connect: " + err.Error())
+		return
+	}
+	defer filler.Close()
+	pub, err := n.MustConnect(kit.ConnectOpts{ClientID: "p", KeepAlive: 600, Clean: true})
+	if err != nil {
+		c.Inconclusive("connect: " + err.Error())
+		return
+	}
+	defer pub.Close()
+	tag := fmt.Sprintf("c05-saturated-%d", i)
+	from := pub.NumEvents()
+	pub.Send(kit.EncPublish("c05/t", []byte(tag), 2, false, false, 9))
+	if _, _, err := pub.WaitFor(from, kit.DefaultWait, func(e kit.Event) bool { return e.Pkt.Type == kit.PUBREC && e.Pkt.ID == 9 }); err != nil {
+		c.Inconclusive("no PUBREC")
+		return
+	}
+	n.Log.CloseGate()
+	opened := false
+	defer func() {
+		if !opened {
+			n.Log.OpenGate()
+		}
+	}()
+	// QoS 0 traffic until every worker sits in the log (the number of workers is the broker's business:
+	// keep feeding until the count of writes that have entered the log stops growing)
+	entered := 0
+	for k := 0; k < 60; k++ {
+		filler.SendTimeout(kit.EncPublish("c05/fill", []byte(fmt.Sprintf("fill-%d-%d", i, k)), 0, false, false, 0), 200*time.Millisecond)
+		if k%10 == 9 {
+			time.Sleep(30 * time.Millisecond)
+			if now := n.Log.Calls(); now == entered && now > 0 {
+				break
+			} else {
+				entered = now
+			}
+		}
+	}
+	c.Observe("saturation_writes_blocked_in_log", n.Log.Calls())
+	pub.Send(kit.EncPubRel(9))
+	time.Sleep(1500 * time.Millisecond) // longer than any hand-off patience inside the broker
+	compBefore := false
+	for _, e := range pub.Events()[from:] {
+		if e.Pkt.Type == kit.PUBCOMP && e.Pkt.ID == 9 {
+			compBefore = true
+		}
+	}
+	stored := false
+	for _, r := range n.Log.Records() {
+		if c05RecTag(r) == tag && r.Err == nil && r.SeqRet > 0 {
+			stored = true
+		}
+	}
+	n.Log.OpenGate()
+	opened = true
+	c.Observe("saturated_scenarios", 1)
+	c.Case(fmt.Sprintf("saturated|%d", i), true)
+	if compBefore && !stored {
+		c.Violation("acknowledged-before-stored:workers-saturated", fmt.Sprintf("saturated scenario %d: with every publish worker blocked in the log, the PUBREL of a QoS 2 handshake was answered with PUBCOMP although no log had accepted %s", i, tag),
+			map[string]interface{}{"scenario": i})
 	}
 }
